@@ -129,8 +129,16 @@ func (q *Query) addVal(val interface{}) {
 		panic(fmt.Sprintf("addVal called with '%s' when lastField is empty", val))
 	}
 	if elem.inList {
-		list := elem.call.Args[elem.lastField].([]interface{})
-		elem.call.Args[elem.lastField] = append(list, val)
+		if elem.lastCond != ILLEGAL {
+			list := elem.call.Args[elem.lastField].(*Condition).Value.([]interface{})
+			elem.call.Args[elem.lastField] = &Condition{
+				Op:    elem.lastCond,
+				Value: append(list, val),
+			}
+		} else {
+			list := elem.call.Args[elem.lastField].([]interface{})
+			elem.call.Args[elem.lastField] = append(list, val)
+		}
 		return
 	}
 	if elem.lastCond != ILLEGAL {
